@@ -423,6 +423,37 @@ def expected_selection(top, q, ignore_specs):
 
 # --------------------------------------------------------------------------------------------------------------------------------
 
+def eval_terms_bg(imports, terms, defs="", timeout=900):
+    """coq.eval_terms, but safe to call from a background thread while the main thread changes directory: the child gets an explicit cwd"""
+    import re
+    import subprocess
+    src = "From SF Require Import Base.Prelude.\n"
+    for imp in imports:
+        src += "From SF Require Import %s.\n" % imp
+    src += "Set Printing Width 1000000.\nSet Printing Depth 100000000.\nOpen Scope nat_scope.\n" + defs + "\n"
+    for i, t in enumerate(terms):
+        src += "Definition verif_case_%d := %s.\nEval vm_compute in verif_case_%d.\n" % (i, t, i)
+    d = coq.scratch_dir()
+    try:
+        path = os.path.join(d, "Scratch.v")
+        with open(path, "w") as f:
+            f.write(src)
+        cmd = "ulimit -s unlimited 2>/dev/null; timeout %d coqc -q -w none -Q %s/theories SF -Q %s/generated SFGen %s" % (timeout, coq.COQ, coq.COQ, path)
+        pr = subprocess.run(["bash", "-c", cmd], stdout=subprocess.PIPE, stderr=subprocess.PIPE, text=True, cwd=coq.COQ)
+        if pr.returncode != 0:
+            raise coq.CoqError("coqc failed on scratch file (rc=%d)" % pr.returncode, (pr.stdout + pr.stderr)[-6000:])
+        parts = re.split(r"(?m)^\s*= ", pr.stdout)[1:]
+        if len(parts) != len(terms):
+            raise coq.CoqError("expected %d results, got %d" % (len(terms), len(parts)), pr.stdout[:2000])
+        vals = []
+        for part in parts:
+            idx = part.rfind("\n     : ")
+            vals.append(coq.parse_term(part[:idx] if idx >= 0 else part))
+        return vals
+    finally:
+        shutil.rmtree(d, ignore_errors=True)
+
+
 class Queue:
     """model evaluations queued for a few large coqc runs (one coqc start costs seconds)"""
 
@@ -444,12 +475,36 @@ class Queue:
         self.ncases += 1
 
     def flush(self, force=True):
+        """start the model evaluation of the queued cases in the background (the real calls go on meanwhile); force=True also waits"""
+        if self.groups and (force or self.ncases >= 2500):
+            self.wait()
+            import threading
+            groups = list(self.groups.values())
+            self.groups, self.split, self.ncases = {}, {}, 0
+            self.error = None
+
+            def job():
+                try:
+                    self._evaluate(groups)
+                except BaseException as e:  # re-raised in wait()
+                    self.error = e
+
+            self.pending = threading.Thread(target=job)
+            self.pending.start()
+        if force:
+            self.wait()
+
+    def wait(self):
+        if getattr(self, "pending", None) is not None:
+            self.pending.join()
+            self.pending = None
+            if self.error is not None:
+                e, self.error = self.error, None
+                raise e
+
+    def _evaluate(self, groups):
         ctx = self.ctx
-        if not self.groups or (not force and self.ncases < 3000):
-            return
         from concurrent.futures import ThreadPoolExecutor
-        groups = list(self.groups.values())
-        self.groups, self.split, self.ncases = {}, {}, 0
         # canary: the first case with a result, again, with one file too many expected; the model comparison must say false
         canary = None
         for g in groups:
@@ -479,7 +534,7 @@ class Queue:
                 defs += d
                 terms += ts
                 owners += [g] * len(ts)
-            vals = coq.eval_terms(COQ_IMPORTS, terms, defs=defs) if terms else []
+            vals = eval_terms_bg(COQ_IMPORTS, terms, defs=defs) if terms else []
             per = {}
             for g, v in zip(owners, vals):
                 per.setdefault(id(g), []).extend(v)
@@ -504,7 +559,7 @@ class Queue:
                         sg = Group.__new__(Group)
                         sg.skel, sg.statics, sg.key, sg.rels, sg.cases = g.skel, g.statics, None, g.rels, [g.cases[ci]]
                         _it, d, ts = sg.coq(0)
-                        mo = coq.eval_terms(COQ_IMPORTS, [ts[0].replace("c25_fcase", "c25_fshow")], defs=COQ_DEFS + d)[0][0][qi]
+                        mo = eval_terms_bg(COQ_IMPORTS, [ts[0].replace("c25_fcase", "c25_fshow")], defs=COQ_DEFS + d)[0][0][qi]
                         if isinstance(mo, tuple) and mo[0] == "Ok":
                             mo = ["".join(chr(c) for c in t) for t in mo[1]]
                         q = m["queries"][qi]
@@ -587,34 +642,30 @@ class Runner:
                 what = ("paths_from_path(%r) and paths_from_path(%r) name the same path from the same working directory but select different "
                         "files" % (rep["input"]["path"], rep["input"]["reference_path"]))
                 spelling = "absolute" if q["spelling"].startswith("absolute") else "relative"
-                if extra:
-                    # the reference spelling leaves them out: because of which ignore file?
-                    ds = set()
-                    for f in extra:
-                        d = why.get(f)
-                        ds.add("?" if d is None else "above the given path" if not (d + "/").startswith(tdir + "/") else
-                               "in the given path" if d == tdir else ">=1 below the given path")
-                    ctx.violation("spelling-dependent-selection", what + " (more files than the absolute spelling)",
-                                  dict(rep, extra=sorted(_rel(top, x) for x in extra)),
-                                  attrs={"spelling": spelling, "dotdot": q["spelling"] == "dotdot", "direction": "extra",
-                                         "ignore_file_depth": "|".join(sorted(ds))})
-                if missing:
-                    # this spelling leaves them out: because of which ignore file?
-                    ds = set()
-                    for f in missing:
-                        found = "?"
-                        for d, specs in ignore_specs.items():
-                            rel = os.path.relpath(f, d)
-                            if any(s.match_file(rel) for s in specs):
-                                if rel.startswith(".."):
-                                    found = "in a directory that does not contain the file"
-                                elif not (d + "/").startswith(tdir + "/") and found == "?":
-                                    found = "above the given path"
-                        ds.add(found)
-                    ctx.violation("spelling-dependent-selection", what + " (fewer files than the absolute spelling)",
-                                  dict(rep, missing=sorted(_rel(top, x) for x in missing)),
-                                  attrs={"spelling": spelling, "dotdot": q["spelling"] == "dotdot", "direction": "missing",
-                                         "ignore_file_location": "|".join(sorted(ds))})
+                # one report per mechanism: the files are classified by the ignore file that makes the difference
+                classes = {}
+                for f in extra:
+                    # the reference spelling leaves f out: because of which ignore file?
+                    d = why.get(f)
+                    c = ("?" if d is None else "above the given path" if not (d + "/").startswith(tdir + "/") else
+                         "in the given path" if d == tdir else ">=1 below the given path")
+                    classes.setdefault(("extra", "ignore_file_depth", c), []).append(f)
+                for f in missing:
+                    # this spelling leaves f out: because of which ignore file?
+                    found = "?"
+                    for d, specs in ignore_specs.items():
+                        rel = os.path.relpath(f, d)
+                        if any(sp.match_file(rel) for sp in specs):
+                            if rel.startswith(".."):
+                                found = "in a directory that does not contain the file"
+                            elif not (d + "/").startswith(tdir + "/") and found == "?":
+                                found = "above the given path"
+                    classes.setdefault(("missing", "ignore_file_location", found), []).append(f)
+                for (direction, attr, c), fs in sorted(classes.items()):
+                    ctx.violation("spelling-dependent-selection",
+                                  what + (" (more files than the absolute spelling)" if direction == "extra" else " (fewer files than the absolute spelling)"),
+                                  dict(rep, **{direction: sorted(_rel(top, x) for x in fs)}),
+                                  attrs={"spelling": spelling, "dotdot": q["spelling"] == "dotdot", "direction": direction, attr: c})
                 if not extra and not missing and exp is not None and q["ids"] != exp:
                     # O2 (a spelling that deviates from the reference spelling is already reported above)
                     rep["expected"] = sorted(_rel(top, x) for x in exp)
@@ -640,10 +691,10 @@ def two_dir_ignores(pairs, second=PATTERNS):
                 yield {d1: {".sqlfluffignore": [p1]}, d2: {".sqlfluffignore": [p2]}}
 
 
-def two_line_ignores(dirs):
+def two_line_ignores(dirs, second=PATTERNS):
     for d in dirs:
         for p1 in PATTERNS:
-            for p2 in PATTERNS:
+            for p2 in second:
                 if p1 != p2:
                     yield {d: {".sqlfluffignore": [p1, p2]}}
 
@@ -741,10 +792,10 @@ def run(ctx, coq_ok):
         for ig in one_pattern_ignores([R, R + "/sub"] if quick else dirs, loader=".sqlfluff"):
             r.run_case("full2", shape, ig, grid_queries(dirs, cwds[:2] if quick else cwds, ftargets))
         chain = [(R, R + "/sub"), (R + "/sub", R + "/sub/sub"), (R, R + "/sub/sub"), (R + "/sub", R + "/sub/oth")]
-        for ig in two_dir_ignores(chain, ["a.sql", "sub/", "!a.sql"]) if quick else two_dir_ignores([(a, b) for a in dirs for b in dirs if a < b]):
+        for ig in two_dir_ignores(chain, ["a.sql", "!a.sql"]) if quick else two_dir_ignores([(a, b) for a in dirs for b in dirs if a < b]):
             r.run_case("full2", shape, ig, grid_queries(dirs, [R] if quick else cwds))
             queue.flush(force=False)
-        for ig in two_line_ignores([R + "/sub"] if quick else [R, R + "/sub", R + "/sub/sub"]):
+        for ig in two_line_ignores([R + "/sub"], ["!a.sql", "a.sql", "sub/"]) if quick else two_line_ignores([R, R + "/sub", R + "/sub/sub"]):
             r.run_case("full2", shape, ig, grid_queries(dirs, [R]))
         # working path different from the working directory (a process that changed directory), and the import-time default
         for ig in one_pattern_ignores([R, R + "/sub", R + "/oth"]):
@@ -775,13 +826,13 @@ def run(ctx, coq_ok):
             r = fresh(shape)
             inner = [d for d in dirs if d != R]
             for d in ([d for d in inner if d.count("/") == 1] if deep or quick else dirs):
-                for p in (["a.sql", "sub/"] if deep or quick else PATTERNS):
+                for p in (["a.sql"] if quick else ["a.sql", "sub/"] if deep else PATTERNS):
                     r.run_case("shape%d" % si, shape, {d: {".sqlfluffignore": [p]}}, grid_queries(dirs, [R] if deep or quick else [R, inner[0]]))
             queue.flush(force=False)
             shutil.rmtree(r.top)
 
         # ---- D. seeded random trees, ignore files, flags
-        for i in range(20 if quick else 400):
+        for i in range(12 if quick else 300):
             random_case(ctx, fresh, i)
             queue.flush(force=False)
 
